@@ -19,6 +19,7 @@ package replica
 
 import (
 	"context"
+	"fmt"
 	"sync"
 
 	"github.com/lindb/common/pkg/encoding"
@@ -282,13 +283,18 @@ func (r *remoteReplicator) Replica(idx int64, msg []byte) {
 		logger.String("replicator", r.String()),
 		logger.Int64("replicaIdx", resp.ReplicaIndex),
 		logger.Int64("ackIdx", resp.AckIndex))
-	// FIXME: need check resp err
 	if resp.AckIndex == resp.ReplicaIndex {
 		// if ack index = replica, need ack wal
 		r.SetAckIndex(resp.AckIndex)
 		r.statistics.AckSequence.Incr()
 	} else {
-		// TODO: need reset ack sequence?
+		// follower didn't append the message(replica index not match or write failure),
+		// need sync the replica index with follower again before sending next message.
+		r.state.Store(&state{
+			state: models.ReplicatorFailureState,
+			errMsg: fmt.Sprintf("replica index not match, replica index: %d, follower ack index: %d, err: %s",
+				resp.ReplicaIndex, resp.AckIndex, resp.Err),
+		})
 		r.statistics.InvalidAckSequence.Incr()
 	}
 }
